@@ -2,14 +2,14 @@
 SPECIFICATION Spec
 CONSTANTS
  KindOf = 0
- Procs = {1, 2, 3}
+ Procs = {1, 2}
  OpProcs = {1}
  TxProcs = {2}
- RemoteProcs = {3}
+ RemoteProcs = {}
+ FailProcs = {2}
  Calls = 1
  TxLen = 2
  Guarded = TRUE
- FailProcs = {}
 INVARIANT NoCrash
 INVARIANT MutualExclusion
 INVARIANT NoLostUnlock
